@@ -323,6 +323,39 @@ def check(ctx):
             okt = okt and ((len(sets) == 1 and u(sets[0].value) == "'string'") if both else not sets)
             seen_t.add(both)
         okt = okt and seen_t == {True, False}
+    # ... and in nothing else: whatever else is changed in the copy (missingValues, constraints, formats) applies to every column of the
+    # table - 'null' declared a missing value turns the text 'null' of a plain string column into NULL
+    copies_ = {pseudo(a_.targets[0]) for a_ in ast.walk(nsn.node) if isinstance(a_, ast.Assign) and pseudo(a_.targets[0])
+               and isinstance(a_.value, ast.Call) and u(a_.value.func) == 'copy.deepcopy'}
+    fvs_ = {l_.target.id for l_ in ast.walk(nsn.node) if isinstance(l_, ast.For) and isinstance(l_.target, ast.Name)}
+    extra_ = []
+    for x_ in ast.walk(nsn.node):
+        if isinstance(x_, ast.Assign) and isinstance(x_.targets[0], ast.Subscript):
+            b_ = x_.targets[0].value
+            while isinstance(b_, (ast.Subscript, ast.Attribute)):
+                b_ = b_.value
+            if isinstance(b_, ast.Name) and (b_.id in copies_ or b_.id in fvs_) and not (u(x_.targets[0].slice) == "'type'" and b_.id in fvs_):
+                extra_.append(x_)
+        if isinstance(x_, ast.Call) and isinstance(x_.func, ast.Attribute) and x_.func.attr in (
+                'append', 'extend', 'update', 'setdefault', 'insert', 'pop', 'remove', 'clear', 'add'):
+            b_ = x_.func.value
+            while isinstance(b_, (ast.Subscript, ast.Attribute, ast.Call)):
+                b_ = b_.func.value if isinstance(b_, ast.Call) and isinstance(b_.func, ast.Attribute) else getattr(b_, 'value', None)
+                if b_ is None:
+                    break
+            if isinstance(b_, ast.Name) and (b_.id in copies_ or b_.id in fvs_):
+                extra_.append(x_)
+    once_s = {a_.targets[0].id: a_.value for a_ in ast.walk(nsn.node) if isinstance(a_, ast.Assign) and isinstance(a_.targets[0], ast.Name)}
+    for x_ in ast.walk(nsn.node):      # a local that holds a part of the copy (missing = schema.setdefault('missingValues', ..))
+        if isinstance(x_, ast.Call) and isinstance(x_.func, ast.Attribute) and isinstance(x_.func.value, ast.Name) and \
+                x_.func.attr in ('append', 'extend', 'update', 'insert', 'add') and x_.func.value.id in once_s:
+            v_ = once_s[x_.func.value.id]
+            if any(isinstance(n_, ast.Name) and (n_.id in copies_ or n_.id in fvs_) for n_ in ast.walk(v_)) and x_ not in extra_:
+                extra_.append(x_)
+    run.check(not extra_, 'R12', where(repo, extra_[0]) if extra_ else nsn.where, nsn.qualname,
+              'the engine schema is the emitted schema with only the type of array / object fields changed',
+              'the schema handed to the storage is changed in more than the column type of array / object fields (%s): such a change '
+              'applies to every column of the table' % (u(extra_[0])[:80] if extra_ else ''))
     run.check(okt, 'R12', nsn.where, nsn.qualname, "sqlite: array / object columns are declared string in the engine schema",
               'the column type the table is created with does not match the JSON text the sqlite fixers produce')
     # actions only for array / object fields: path by path over the loop that collects them
